@@ -66,6 +66,7 @@ func verifProgress(measure func() int, fns ...string)
 func verifAllocBound(n int)
 func verifLoopBound(fnSuffix string, iterations int)
 func verifConcurrent(ops ...func())
+func verifJSONTransparent(v interface{}) bool
 func verifJSONParse(b []byte) int
 func verifJSONValid(h int) bool
 func verifJSONHas(h int, path string) bool
